@@ -186,10 +186,12 @@ func (eval Evaluator) PartialTracesSum(ctIn *Ciphertext, offset, n int, opOut *C
 	}
 
 	if n == 1 {
+		// The sum of one term is the input, in the domain it is in: nothing to transform back.
 		if ctIn != opOut {
 			opOut.Value[0].CopyLvl(levelQ, ctIn.Value[0])
 			opOut.Value[1].CopyLvl(levelQ, ctIn.Value[1])
 		}
+		return nil
 	} else {
 
 		// BuffQP[0:2] are used by AutomorphismHoistedLazy
@@ -342,7 +344,9 @@ func (eval Evaluator) InnerFunction(ctIn *Ciphertext, batchSize, n int, f func(a
 	}
 
 	if n == 1 {
+		// One term: the input, in the domain it is in (nothing to transform back).
 		opOut.Copy(ctIn)
+		return nil
 	} else {
 
 		// Accumulator mod Q
@@ -434,6 +438,7 @@ func (eval Evaluator) InnerFunction(ctIn *Ciphertext, batchSize, n int, f func(a
 	if !ctIn.IsNTT {
 		ringQ.INTT(opOut.Value[0], opOut.Value[0])
 		ringQ.INTT(opOut.Value[1], opOut.Value[1])
+		opOut.IsNTT = false
 	}
 
 	return
